@@ -442,6 +442,49 @@ def run(ctx):
                   'recycle() is skipped and the connection stays checked out' % (norm_text(bad[1])[:70] if bad else ''), f.loc(bad[0].stmt) if bad else f.loc())
     if n_exits < 2:
         raise AnalysisError('expected the __exit__ of BaseSession and of WebSession to recycle their connections')
+    # every protocol / web session that is created is driven inside `with` (or handed to an owner that is): __exit__ is the only
+    # place that gives the connections of a failed exchange back
+    n_sites = 0
+    for f in repo.funcs.values():
+        if not f.module.name.startswith(('wpull.processor', 'wpull.protocol', 'wpull.proxy')) or f.module.name.endswith('_test'):
+            continue
+        if f.module.name.startswith('wpull.processor.coprocessor') or f.name in ('main', 'session') or '<locals>' in f.qual:
+            continue
+        fpm = None
+        for c in U.calls(f.node):
+            if U.attr_name(c) != 'session' or not isinstance(c.func, ast.Attribute):
+                continue
+            recv = norm_text(c.func.value)
+            if not any(k in recv for k in ('client', 'web_client', 'http_client', 'ftp_client')):
+                continue
+            n_sites += 1
+            fpm = fpm or U.parents(f.node)
+            st = U.enclosing_stmt(c, fpm)
+            ok = False
+            where = ''
+            if isinstance(st, ast.With) and any(any(x is c for x in ast.walk(it.context_expr)) for it in st.items):
+                ok = True
+            elif isinstance(st, ast.Assign):
+                names = [t.id for t in st.targets if isinstance(t, ast.Name)] + [t.id for t in ast.walk(st) if isinstance(t, ast.Name) and isinstance(t.ctx, ast.Store)]
+                attrs = [t.attr for t in ast.walk(st) if isinstance(t, ast.Attribute) and isinstance(t.ctx, ast.Store) and U.is_self_attr(t)]
+                # a local used as `with name:` in the same function
+                for w in walk_no_nested(f.node):
+                    if isinstance(w, ast.With) and any(isinstance(it.context_expr, ast.Name) and it.context_expr.id in names for it in w.items):
+                        ok = True
+                # a field of an object whose own __exit__ recycles it (WebSession._current_session), or used as `with self.field:`
+                for a in attrs:
+                    ex_ = f.cls.methods.get('__exit__') if f.cls is not None else None
+                    if ex_ is not None and any(U.is_self_attr(x, a) for x in ast.walk(ex_.node)):
+                        ok = True
+                    for m2 in (f.cls.methods.values() if f.cls is not None else ()):
+                        for w in walk_no_nested(m2.node):
+                            if isinstance(w, ast.With) and any(U.is_self_attr(it.context_expr, a) for it in w.items):
+                                ok = True
+            ck.expect(ok, 'C12-D7', f.qual, '%s is driven inside `with`' % norm_text(c)[:50],
+                      'a session is created and used without `with`: when an exchange fails nobody calls its __exit__, and the connection it '
+                      'had acquired stays checked out of the pool for ever', f.loc(c))
+    if n_sites < 4:
+        raise AnalysisError('expected at least four session creation sites in processors / protocol code (found %d)' % n_sites)
     rc = repo.func(bs.qual + '.recycle')
     okr = False
     for lp in walk_no_nested(rc.node):
